@@ -50,6 +50,11 @@ impl GridCollection {
             let mut path = path.clone();
             path.push(ext);
             path.push(name);
+            // Only regular files: the name comes from the definition text, and may
+            // lead to a device or a pipe, the reading of which never ends
+            if !path.is_file() {
+                continue;
+            }
             let Ok(grid) = std::fs::read(path) else {
                 continue;
             };
